@@ -27,7 +27,7 @@ func boolStr(b bool) string {
 func mkPacket(code, id, auth, secret, attrs string) *radius.Packet {
 	a := unhx(auth)
 	if len(a) != 16 || atoi(id) < 0 || atoi(id) > 255 {
-		panic("bad packet fields")
+		panic(badCase("bad packet fields"))
 	}
 	p := &radius.Packet{Code: radius.Code(atoi(code)), Identifier: byte(atoi(id)), Secret: unhx(secret)}
 	copy(p.Authenticator[:], a)
